@@ -168,3 +168,52 @@ func (p *Prog) REQList() []*ssa.Function {
 	sort.Slice(out, func(i, j int) bool { return p.FuncKey(out[i]) < p.FuncKey(out[j]) })
 	return out
 }
+
+// ReachFrom returns the module functions reachable from the roots over the same
+// edges as REQ (static callees, invokes by class hierarchy, literals, function values).
+func (p *Prog) ReachFrom(roots ...*ssa.Function) []*ssa.Function {
+	seen := map[*ssa.Function]bool{}
+	var work, out []*ssa.Function
+	add := func(f *ssa.Function) {
+		if f == nil || seen[f] || !p.inModule(f) || len(f.Blocks) == 0 {
+			return
+		}
+		seen[f] = true
+		work = append(work, f)
+		if f.Synthetic == "" {
+			out = append(out, f)
+		}
+	}
+	for _, r := range roots {
+		add(r)
+	}
+	for len(work) > 0 {
+		f := work[len(work)-1]
+		work = work[:len(work)-1]
+		for _, a := range f.AnonFuncs {
+			add(a)
+		}
+		allInstrs(f, func(in ssa.Instruction) {
+			if ci, ok := in.(ssa.CallInstruction); ok {
+				for _, cal := range p.moduleCallees(ci.Common()) {
+					add(cal)
+				}
+			}
+			for _, op := range in.Operands(nil) {
+				if op == nil || *op == nil {
+					continue
+				}
+				switch x := (*op).(type) {
+				case *ssa.Function:
+					add(x)
+				case *ssa.MakeClosure:
+					if fn, ok := x.Fn.(*ssa.Function); ok {
+						add(fn)
+					}
+				}
+			}
+		})
+	}
+	sort.Slice(out, func(i, j int) bool { return p.FuncKey(out[i]) < p.FuncKey(out[j]) })
+	return out
+}
